@@ -39,9 +39,9 @@ TRUSTED = [
     "of returning its error on bytes ending 1..3 bytes after a record; the model predicts it (UPanic, "
     "C13_block_unpack_total_refuted / _partial), the class unpack-malformed checks agreement and counts "
     "observation:block-unpack-short-tail; a panic the model does not predict is a violation",
-    "the composition 'table entries of one field cut to SelectEntries [l,r) form a served cover' is only tested "
-    "(class rand-writer runs sealed_search_bytes against the real SelectEntries+Provider+Search); see "
-    "C13_sealed_equals_scan_bytes_partial",
+    "the byte-level end-to-end statement is now proved (C13_sealed_equals_scan_bytes: generator -> writeTokensBlocks -> "
+    "table entries of the field -> SelectEntries -> Provider over the packed blocks -> narrowed Search = scan); the class "
+    "rand-writer still runs that model function (sealed_search_bytes) against the real SelectEntries+Provider+Search",
 ]
 ASSUME = [
     "term lists are well formed as built by the parsers: non-empty, no empty text term next to a wildcard, no two "
